@@ -16,7 +16,8 @@ RULE = ("Directed multigraphs (1-9 nodes, integer edge costs 0..5 incl. zero-cos
         "of exact; consistent by construction) x tie_breaking x seed x randomize_action_order. Oracle: own Dijkstra "
         "/ BFS and a path validator. Non-trivial: no goal reachable from a start with >=2 reachable nodes, or a "
         "reachable goal at distance >0 with a strictly sub-optimal alternative edge or a zero-cost edge on a "
-        "shortest path; distinct by spec hash.")
+        "shortest path; distinct by spec hash."
+        ' Also: consistent heuristics not proportional to the exact one (relaxed goal sets, capped / shifted exact), free moves, origin-centred (hash-colliding) integer and coordinate labels.')
 ASSUMPTIONS = ["integer costs and dyadic heuristic scalings keep A*'s float arithmetic exact"]
 
 
